@@ -114,6 +114,9 @@ def run(ctx):
             return not (fs['EXTMATCH'] and '(' in p)
         if fs['SPLIT'] and any(bar_exposed(p) for p in inc + exc):
             continue
+        # ... nor may the piece *as written* (with its negation prefix: `-(a|b)` is not a group) be cut by SPLIT
+        if fs['SPLIT'] and any(len(list(W.WcSplit(p_, flagv).split())) > 1 for p_, _n in items):
+            continue
         if fs['BRACE'] and any('{' in p for p in inc + exc):
             continue
         kw = {'exclude': exc} if (use_kw and exc) else {}
